@@ -5,6 +5,7 @@ package c04
 // Black-box differential monitors: circl's six parameter sets against ref/mldsa.
 
 import (
+	"bytes"
 	cryptoRand "crypto/rand"
 	"fmt"
 	"io"
@@ -286,6 +287,25 @@ func oneKeySeed(im *impl, k, nm int, seed []byte) {
 		return
 	}
 	lib.Count("keygen-match")
+	// GenerateKey(reader) is key generation from the 32 octets the reader
+	// supplies - also when it supplies them a few octets at a time, and from
+	// a source that has more to give
+	if k < 3 {
+		stream := append(lib.Clone(seed), 0xAA, 0xBB, 0xCC)
+		for ri, rd := range []io.Reader{bytes.NewReader(stream), &lib.ShortReader{R: bytes.NewReader(stream)}} {
+			var gpk, gsk any
+			var gerr error
+			if pan := lib.Try("GenerateKey:"+p.Name, seed, func() { gpk, gsk, gerr = im.generate(rd) }); pan != nil || gerr != nil {
+				viol(im, monDiff, "keygen-mismatch", "GenerateKey", "seed", seed, "err", gerr, "panic", fmt.Sprint(pan != nil), "short_reads", ri == 1)
+				continue
+			}
+			lib.Count("keygen:GenerateKey")
+			if !lib.Eq(im.packPK(gpk), pkb) || !lib.Eq(im.packSK(gsk), skb) {
+				viol(im, monDiff, "keygen-mismatch", "GenerateKey", "seed", seed, "short_reads", ri == 1,
+					"note", "the generated key is not KeyGen_internal of the 32 octets the reader delivered")
+			}
+		}
+	}
 	// Public(), Unpack(Pack()) must describe the same key
 	if b := im.packPK(im.public(skObj)); !lib.Eq(b, pkb) {
 		viol(im, monDiff, "keygen-mismatch", "sk.Public", "seed", seed, "circl_pk", b, "ref_pk", pkb)
